@@ -4,6 +4,7 @@ package main
 
 import (
 	"encoding/json"
+	"os/exec"
 	"flag"
 	"fmt"
 	"os"
@@ -31,6 +32,9 @@ type KnownFinding struct {
 	Status     string `json:"status"` // known | fixed
 	Commit     string `json:"commit,omitempty"`
 	What       string `json:"what"`
+	// optional: a Go test body (package-internal) that prints WITNESS-REPRODUCED while the finding is present
+	WitnessPkg  string `json:"witness_pkg,omitempty"`
+	WitnessTest string `json:"witness_test,omitempty"`
 }
 
 var verifRoot = "/verif"
@@ -229,6 +233,15 @@ func checkMain(args []string) {
 	var knownLines []string
 	for _, c := range classes {
 		rs := byClassFail[c]
+		if kf := knownFor[c]; kf != nil && kf.WitnessTest != "" {
+			// the recorded witness must still reproduce on the real code; otherwise this failure is something else
+			if ok, detail := runWitness(*repo, kf); !ok {
+				rp := filepath.Join(verifRoot, "replays", *prop+"_"+mangle(c)+"_witness.json")
+				writeReplay(rp, *prop, c, rs[0], false, "the obligation of a known finding fails, but its recorded witness no longer reproduces: "+detail)
+				violate(rp, true)
+				continue
+			}
+		}
 		if kf := knownFor[c]; kf != nil {
 			if !knownPrinted[c] {
 				knownPrinted[c] = true
@@ -464,4 +477,33 @@ func writeReplayMissing(path, prop, fn string, classes []string, reason string) 
 	}
 	b, _ := json.MarshalIndent(m, "", " ")
 	os.WriteFile(path, b, 0o644)
+}
+
+var witnessCache = map[string][2]string{}
+
+// runWitness executes the witness test of a known finding against the real code (overlay; repository untouched).
+func runWitness(repo string, kf *KnownFinding) (bool, string) {
+	key := kf.WitnessPkg + "\x00" + kf.WitnessTest
+	if r, ok := witnessCache[key]; ok {
+		return r[0] == "1", r[1]
+	}
+	tmp, _ := os.MkdirTemp("", "gocv-witness")
+	defer os.RemoveAll(tmp)
+	pkgDir := filepath.Join(repo, kf.WitnessPkg)
+	src := filepath.Join(tmp, "w_test.go")
+	os.WriteFile(src, []byte(kf.WitnessTest), 0o644)
+	ov, _ := json.Marshal(map[string]interface{}{"Replace": map[string]string{filepath.Join(pkgDir, "gocv_witness_test.go"): src}})
+	ovf := filepath.Join(tmp, "ov.json")
+	os.WriteFile(ovf, ov, 0o644)
+	cmd := exec.Command("bash", "-c", fmt.Sprintf("cd %s && go test -overlay %s -vet=off -count=1 -timeout 60s -run '^TestGocvWitness$' -v .", pkgDir, ovf))
+	cmd.Env = append(os.Environ(), "GOFLAGS=-mod=mod", "GOPROXY=off")
+	out, _ := cmd.CombinedOutput()
+	ok := strings.Contains(string(out), "WITNESS-REPRODUCED")
+	detail := trunc(string(out), 600)
+	v := "0"
+	if ok {
+		v = "1"
+	}
+	witnessCache[key] = [2]string{v, detail}
+	return ok, detail
 }
